@@ -26,12 +26,15 @@ func TestC11(t *testing.T) {
 				sp := lab.StorePlan{
 					Class:  rapid.SampledFrom([]int{lab.ClassNotStarted, lab.ClassTerminal, lab.ClassRunning, lab.ClassRunning, lab.ClassRunning}).Draw(t, "class"),
 					Prefix: rapid.IntRange(0, 1000).Draw(t, "prefix"),
-					Age:    rapid.IntRange(0, 4).Draw(t, "age"),
+					Age:    rapid.IntRange(0, 5).Draw(t, "age"),
 				}
 				c.Plans = append(c.Plans, sp)
 			}
 			constantScripts(&c.Sc)
 			c.NoRecovery = rapid.IntRange(0, 5).Draw(t, "noRecovery") == 0
+			if rapid.IntRange(0, 3).Draw(t, "fault") == 0 {
+				c.FaultAt = rapid.IntRange(1, 12).Draw(t, "faultAt")
+			}
 			return c
 		},
 		Check: func(c lab.StoreCase) (res vprop.Result) {
@@ -41,7 +44,9 @@ func TestC11(t *testing.T) {
 				classes[p.Class] = true
 				if p.Class == lab.ClassRunning {
 					running = true
-					if p.Age == lab.AgePlanRowOnly {
+					if p.Age == lab.AgeStartsOnly {
+						res.Label("running-plan-long-objects-old-starts-fresh-ends")
+					} else if p.Age == lab.AgePlanRowOnly {
 						res.Label("running-plan-old-start-fresh-activity")
 					} else if p.Age >= 2 {
 						res.Label("stale-running-plan")
